@@ -503,6 +503,8 @@ def check_pair(ctx, problem, cfg, kind, level=None, label='random',
     ctx.count('%s:iterations:%d' % (kind, cfg['bootstrap_iteration']))
     ctx.count('%s:workers:%d' % (kind, cfg['n_processors']))
     ctx.count('%s:min_markers:%d' % (kind, cfg.get('min_markers', 1)))
+    if cfg.get('bootstrap_factor_lookup'):
+        ctx.count('%s:bootstrap_factor_lookup' % kind)
     if kind == 'absent' and level != ABSENT:
         ctx.count('absent:prefix-like-string')
     if kind == 'drop' and any(x != level and (x.startswith(level) or
@@ -592,18 +594,33 @@ def check_pair(ctx, problem, cfg, kind, level=None, label='random',
     return fail is None
 
 
+def with_lookup(rng, problem, cfg, kind, level, prob=0.4):
+    """the `bootstrap_factor_lookup` option for both runs of a pair: complete
+    for the tree of the run only (no entry for the dropped level; only 'None'
+    with flatten) or for the stored tree; one factor or one per level"""
+    cfg = {k: v for k, v in cfg.items() if k != 'bootstrap_factor_lookup'}
+    if rng.random() < prob:
+        cfg_a = pair_setup(problem, cfg, kind, level)[0]
+        cfg['bootstrap_factor_lookup'] = U.gen_factor_lookup(
+            rng, problem['tree'], cfg_a)
+    return cfg
+
+
 def check_base(ctx, problem, cfg, mode='replay', all_levels=True):
     rng = ctx.rng
     h = problem['tree']['hierarchy']
     ctx.count('base:%s' % mode)
     ctx.count('base:depth:%d' % len(h))
     for level in h[:-1]:
-        check_pair(ctx, problem, cfg, 'drop', level)
+        check_pair(ctx, problem,
+                   with_lookup(rng, problem, cfg, 'drop', level), 'drop', level)
     # flatten alone, on a table with keys for parents outside the taxonomy
     pf = dict(problem, markers=privatize(rng, problem, None))
-    check_pair(ctx, pf, cfg, 'flatten')
+    check_pair(ctx, pf, with_lookup(rng, pf, cfg, 'flatten', None), 'flatten')
     cfg_abs = dict(cfg, flatten=rng.random() < 0.25)
-    check_pair(ctx, problem, cfg_abs, 'absent', absent_level(rng, h))
+    lv = absent_level(rng, h)
+    check_pair(ctx, problem, with_lookup(rng, problem, cfg_abs, 'absent', lv),
+               'absent', lv)
     # deficient parents: min_markers 2-5, parents at / below the dropped level
     # with fewer usable markers, a palette of genes per level -- the fallback
     # must come from the ancestors of the REDUCED tree (drop) / be untouched
@@ -616,7 +633,9 @@ def check_base(ctx, problem, cfg, mode='replay', all_levels=True):
         for level in levels:
             m = rng.randint(2, 5)
             pd = dict(problem, markers=deficient_table(rng, problem, level, m))
-            check_pair(ctx, pd, dict(cfg, min_markers=m), 'drop', level)
+            check_pair(ctx, pd, with_lookup(rng, pd, dict(cfg, min_markers=m),
+                                            'drop', level, prob=0.3),
+                       'drop', level)
         m = rng.randint(2, 5)
         pd = dict(problem, markers=deficient_table(rng, problem,
                                                    rng.choice(h[:-1]), m))
@@ -639,7 +658,8 @@ def check_base(ctx, problem, cfg, mode='replay', all_levels=True):
             c['bootstrap_iteration'] = 1
         c['encoding'] = rng.choice(['dense', 'csr', 'csc'])
         pp = dict(problem, markers=privatize(rng, problem, level))
-        check_pair(ctx, pp, c, 'flatten_drop', level)
+        check_pair(ctx, pp, with_lookup(rng, pp, c, 'flatten_drop', level,
+                                        prob=0.3), 'flatten_drop', level)
 
 
 def run(ctx):
